@@ -86,6 +86,16 @@ struct H {
     const std::string& nm = op.name; CModel& m = c[i];
     if (m.closed || !m.cl) { ctx->count("skipped"); return; }   // (closed, or the connection that is still to be accepted)
     if (nm == "write") doWrite(i, 1 + n % 5000, "after write");
+    else if (nm == "write0") {
+      // a write of no bytes while a backlog exists: nothing is added, the reported postponed size is still the backlog
+      // (without a backlog a zero-byte send() is indistinguishable from a closed connection: not generated)
+      long b0 = backlog(i);
+      if (b0 > 0) {
+        unsigned char z = 0; usize postponed = 12345;
+        if (m.cl->write(&z, 0, &postponed)) { if ((long)postponed != b0) { char d[200]; snprintf(d, sizeof d, "write of 0 bytes on client %d reported postponed = %ld, accepted - handed to the system = %ld", i, (long)postponed, b0); fail("backlog:postponed", d); } ctx->label("zero_size_write_with_backlog"); checkBacklog(i, "after a write of 0 bytes"); }
+        else { m.closed = true; m.closedByServer = true; }
+      } else ctx->count("skipped");
+    }
     else if (nm == "wincb") { m.writeInCallback[op.a[2] & 1] = 1 + n % 5000; }
     else if (nm == "sincb") { m.suspendInCallback[op.a[2] & 1] = true; }   // the next onWrite (0) / onRead (1) callback of this client suspends it   // the next onWrite (0) / onRead (1) callback of this client writes
     else if (nm == "suspend") { m.cl->suspend(); m.suspended = true; if (!m.cl->isSuspended()) fail("suspend:flag", "isSuspended() is false after suspend()"); ctx->label("suspend"); }
@@ -196,9 +206,9 @@ void pbt_generate(Rng& r, int size, Case& c) {
     }
     c.add("fault", kind, v);
   }
-  static const char* names[] = {"write", "suspend", "resume", "peerread", "peerdrain", "peerwrite", "query", "leave", "wincb", "sincb"};
-  static const int w[] = {40, 6, 8, 16, 6, 8, 10, 4, 8, 4};
-  for (int k = 0; k < n; ++k) { int o = r.weighted(w, 10); c.add(names[o], (long)r.below(NC), (long)r.below(100000), (long)r.below(1000)); }
+  static const char* names[] = {"write", "suspend", "resume", "peerread", "peerdrain", "peerwrite", "query", "leave", "wincb", "sincb", "write0"};
+  static const int w[] = {40, 6, 8, 16, 6, 8, 10, 4, 8, 4, 3};
+  for (int k = 0; k < n; ++k) { int o = r.weighted(w, 11); c.add(names[o], (long)r.below(NC), (long)r.below(100000), (long)r.below(1000)); }
 }
 
 bool pbt_nontrivial(const Ctx& ctx) { return ctx.has("backlog_created") && ctx.has("write_while_backlog") && ctx.has("onWrite_after_drain"); }
